@@ -159,8 +159,7 @@ def run(ctx):
               "non-smaller element: equal elements lose their original order", expr="exchange guard",
               site="FuncSorted.execute: exchange only if comparison < 0, else stop")
     if ok:
-        sw = [norm(s) for s in ifs[0].body]
-        ok2 = sw == ["temp = result[j + 1]", "result[j + 1] = result[j]", "result[j] = temp"]
+        ok2 = _adjacent_swap(ifs[0].body, {"result[j]", "result[j + 1]"})
         ctx.check("C07.sorted", fs, ifs[0], ok2, "the exchange is not an adjacent swap of result[j] and result[j+1]",
                   expr="adjacent swap", site="FuncSorted.execute: adjacent swap")
     stores = [n for n in ast.walk(fs.node) if isinstance(n, (ast.Assign, ast.AugAssign, ast.Delete))
@@ -187,7 +186,17 @@ def run(ctx):
               "keys of distinguishable elements) would share an entry", expr="hash table in sorted",
               site="FuncSorted.execute: no hash table keyed by values")
     cmpcalls = [n for n in ast.walk(fs.node) if isinstance(n, ast.Call) and norm(n.func) == "cmp.execute"]
-    keycalls = [n for n in ast.walk(fs.node) if isinstance(n, ast.Call) and norm(n.func) == "key.execute"]
+    # key(x): key.execute(..x..) directly, or through a local helper that does just that with its parameter
+    helpers = {}
+    for d in ast.walk(fs.node):
+        if isinstance(d, ast.FunctionDef) and d is not fs.node and len(d.args.args) == 1:
+            inner = [n for n in ast.walk(d) if isinstance(n, ast.Call) and norm(n.func) == "key.execute"]
+            if len(inner) == 1 and d.args.args[0].arg in {x.id for x in ast.walk(inner[0]) if isinstance(x, ast.Name)}:
+                helpers[d.name] = {id(x) for x in ast.walk(d)}
+    in_helper = set().union(*helpers.values()) if helpers else set()
+    keycalls = [n for n in ast.walk(fs.node) if isinstance(n, ast.Call) and id(n) not in in_helper
+                and (norm(n.func) == "key.execute" or isinstance(n.func, ast.Name) and n.func.id in helpers)]
+    keycalls.sort(key=lambda n: (n.lineno, n.col_offset))
     ok = len(cmpcalls) == 1 and len(keycalls) == 2 and "result[i]" in norm(keycalls[0]) and "result[j]" in norm(keycalls[1])
     ctx.check("C07.sorted", fs, None, ok, "cmp is not applied to key(result[i]) and key(result[j]) computed on the spot",
               expr="cmp(key(x), key(y))", site="FuncSorted.execute: cmp(key(result[i]), key(result[j]))")
@@ -201,6 +210,19 @@ def run(ctx):
         ctx.check("C07.views", m, None, ok,
                   f"{cname}.{mname} is not `{want[7:]}`: the enumeration order of sets / map keys must be the values' "
                   f"own order for every element kind", expr=f"{cname}.{mname}", site=f"{cname}.{mname}: {want[7:]}")
+
+
+def _adjacent_swap(stmts, pair):
+    """the statements exchange exactly the two subscripts in `pair` (tuple assignment or through a temporary)"""
+    if len(stmts) == 1 and isinstance(stmts[0], ast.Assign) and len(stmts[0].targets) == 1 \
+            and isinstance(stmts[0].targets[0], ast.Tuple) and isinstance(stmts[0].value, ast.Tuple):
+        t = [norm(x) for x in stmts[0].targets[0].elts]
+        v = [norm(x) for x in stmts[0].value.elts]
+        return len(t) == 2 and set(t) == pair and v == t[::-1]
+    if len(stmts) == 3 and all(isinstance(x, ast.Assign) and len(x.targets) == 1 for x in stmts):
+        (t0, v0), (t1, v1), (t2, v2) = [(norm(x.targets[0]), norm(x.value)) for x in stmts]
+        return {v0, t2} <= pair and v0 != t2 and t1 == v0 and v1 == t2 and v2 == t0 and t0 not in pair
+    return False
 
 
 def minmax(ctx, model):
